@@ -68,6 +68,8 @@ type Socket interface {
 // Kernel binds sockets.
 type Kernel interface {
 	ListenUDP(address string) (Socket, error)
+	// ListenTCP returns a stream listener whose Accept yields simulated connections.
+	ListenTCP(address string) (net.Listener, error)
 }
 
 type holder struct{ k Kernel }
@@ -102,6 +104,15 @@ func Lookup(fd uintptr) Socket {
 type ListenConfig struct {
 	Control   func(network, address string, c syscall.RawConn) error
 	KeepAlive time.Duration
+}
+
+func (lc *ListenConfig) Listen(ctx context.Context, network, address string) (net.Listener, error) {
+	h := sim.Load()
+	if h == nil {
+		rlc := net.ListenConfig{Control: lc.Control, KeepAlive: lc.KeepAlive}
+		return rlc.Listen(ctx, network, address)
+	}
+	return h.k.ListenTCP(address)
 }
 
 func (lc *ListenConfig) ListenPacket(ctx context.Context, network, address string) (PacketConn, error) {
